@@ -16,16 +16,4 @@ def run(ctx):
     res["coverage"]["input_enumeration"] = {"module": "MC_props.tla", "ok": r.ok, "wall_s": round(r.wall, 1),
                                              "lists": "all lists of length <= MaxLen over 29 proposal variants x 3 committers"}
     res["coverage"]["exhaustive"] = False
-    # known finding F12: steps of the replayed behaviours that exercise the named deviation
-    import json, os
-    n = 0
-    beh = os.path.join(vlib.workdir("core"), f"behaviours-SIM_props-{ctx['tier']}-{ctx['seed']}-1.0.ndjson")
-    if os.path.exists(beh):
-        for line in open(beh):
-            for s in json.loads(line)["steps"]:
-                if s["res"].endswith(":F12"):
-                    n += 1
-    res["coverage"]["known_finding_F12_steps"] = n
-    if n:
-        res["violations"].append({"key": "F12", "what": "by-reference resumption PSK of a non-retained epoch is not dropped", "replay": "findings/F12-unretained-resumption-psk-by-reference-not-dropped.json"})
     return res
